@@ -26,6 +26,7 @@ type series struct {
 type sampleSet struct {
 	series []series
 	allInt bool // every non-stale value is an integer of small magnitude
+	cuts   []int64 // layout: the samples up to each bound were flushed into a data file of their own
 }
 
 func labelsKey(ls []label) string {
